@@ -67,7 +67,7 @@ def explore(body, contracts=None, cfg=None, max_paths=400, setup=None):
     return out
 
 
-def discharge(I, name_prefix, case, timeout_ms=20000, inputs=None, replay_fn=None, ladder=None):
+def discharge(I, name_prefix, case, timeout_ms=20000, inputs=None, replay_fn=None, ladder=None, prefer=None):
     """Discharge the obligations collected on one path; returns plain-dict results."""
     res = []
     for ob in I.obls:
@@ -86,6 +86,13 @@ def discharge(I, name_prefix, case, timeout_ms=20000, inputs=None, replay_fn=Non
         r = {'name': name_prefix + ob.name, 'case': case, 'kind': ob.kind, 'verdict': verdict, 'secs': dt,
              'backend': be, 'lineno': ob.lineno, 'note': ob.note, 'path': list(I.trace)[-12:],
              'formula_size': len(hyps)}
+        if verdict == 'refuted' and prefer:
+            # prefer a small counter-model (same formula plus size bounds) so that it can be replayed
+            for extra in prefer:
+                st2, m2, _, _ = solve.check_sat(hyps + [z3.Not(ob.goal)] + list(extra), min(timeout_ms, 5000), True, False)
+                if st2 == 'sat' and m2 is not None:
+                    model = m2
+                    break
         if verdict == 'refuted':
             mv = {}
             if model is not None and inputs:
